@@ -31,6 +31,7 @@ TARGETS = {
     # Class.method: static methods, and instance methods that only READ fields of self (the object is a value)
     "wallet_utils": ["Bip32Path.is_hardened", "Bip32Path.is_private", "Bip32Path.convert_hardened"],
     "script": ["Script.raw_serialize", "Script.serialize"],
+    "bip39": ["correct_entropy_bits_value", "checksum_length", "mnemonic_sentence_length", "mnemonic_from_entropy"],
     "__main__": ["value_in_interval", "address_index", "account_index", "extended_key", "mnemonic", "bip39_seed", "entropy_hex"],
 }
 # external primitives: name -> (params, expected source of the body).  Their semantics is a parameter of the theorems.
@@ -88,6 +89,8 @@ class Module:
     def __init__(self, name, repo):
         self.name = name
         self.path = os.path.join(repo, "btc_hd_wallet", name + ".py")
+        if not os.path.exists(self.path) and os.path.isdir(os.path.join(repo, "btc_hd_wallet", name)):
+            self.path = os.path.join(repo, "btc_hd_wallet", name, "__init__.py")          # a package
         self.src = open(self.path).read()
         self.tree = ast.parse(self.src)
         self.funcs = {}          # name -> FunctionDef (module level)
@@ -374,6 +377,18 @@ class FunTrans:
                 return "(EBuiltin %s %s)" % (b, self.exprs(e.args[:1], scope))
             if f.value.id == "bytes" and f.attr == "fromhex" and len(e.args) == 1 and not e.keywords:
                 return "(EBuiltin BFromHex %s)" % self.exprs(e.args, scope)
+        # int(a / b): true division followed by truncation
+        if isinstance(f, ast.Name) and f.id == "int" and not self.is_local("int", scope) and len(e.args) == 1 and not e.keywords \
+                and isinstance(e.args[0], ast.BinOp) and isinstance(e.args[0].op, ast.Div):
+            return "(EBuiltin BIntDiv %s)" % self.exprs([e.args[0].left, e.args[0].right], scope)
+        # re.findall("." * K, s): fixed-width chunks
+        if isinstance(f, ast.Attribute) and isinstance(f.value, ast.Name) and f.value.id == "re" and f.attr == "findall" \
+                and not self.is_local("re", scope) and len(e.args) == 2 and not e.keywords:
+            pat = e.args[0]
+            if isinstance(pat, ast.BinOp) and isinstance(pat.op, ast.Mult) and isinstance(pat.left, ast.Constant) and pat.left.value == "." \
+                    and isinstance(pat.right, ast.Constant) and isinstance(pat.right.value, int):
+                return "(EBuiltin BChunks (ECons (EConst (VInt %d)) %s))" % (pat.right.value, self.exprs([e.args[1]], scope))
+            raise Untranslatable("re.findall with a pattern other than '.' * K")
         qual = self.resolve_callee(f)
         if qual is not None and not (isinstance(f, ast.Name) and self.is_local(f.id, scope)):
             if not self.world.known(qual):
@@ -623,9 +638,15 @@ def generate(repo):
                 changed = True
     out = ["(* GENERATED by harness/pytrans.py from %s -- do not edit *)" % repo,
            "From BHW Require Import Py.Interp.", "Open Scope string_scope.", ""]
+    big = {}
+    for (m, n) in W.globals_used:
+        v = W.mod(m).consts[n]
+        if isinstance(v, (list, tuple)) and len(v) > 64:
+            big[(m, n)] = "g_%s__%s" % (m, n)
+            out.append("Definition %s : val := %s.\n" % (big[(m, n)], cval(v)))
     out.append("Definition genv (x : string) : option val :=")
     for (m, n) in W.globals_used:
-        out.append("  if String.eqb x %s then Some %s else" % (cstr("%s.%s" % (m, n)), cval(W.mod(m).consts[n])))
+        out.append("  if String.eqb x %s then Some %s else" % (cstr("%s.%s" % (m, n)), big.get((m, n)) or cval(W.mod(m).consts[n])))
     out.append("  None.\n")
     for q in EXTERNS:
         out.append("Definition extern_ok_%s : bool := %s." % (ident(q), "true" if W.extern_ok(q) else "false"))
